@@ -12,12 +12,13 @@ import ScrapliModel.Regex.Lemmas
 namespace Scrapli.Regex
 open RE
 
-/-- bytes `c`, `c'` are members of exactly the same class bitmaps occurring in the regex -/
+/-- bytes `c`, `c'` are members of exactly the same class bitmaps among those the derivative looks at
+    (the second factor of a `cat` is only inspected when the first is nullable) -/
 def agreeOn (c c' : Nat) : RE → Bool
   | emp => true
   | eps => true
   | cls bm => bm.testBit c == bm.testBit c'
-  | cat a b => agreeOn c c' a && agreeOn c c' b
+  | cat a b => agreeOn c c' a && (!nullable a || agreeOn c c' b)
   | alt a b => agreeOn c c' a && agreeOn c c' b
   | RE.and a b => agreeOn c c' a && agreeOn c c' b
   | RE.not a => agreeOn c c' a
@@ -34,7 +35,12 @@ theorem derivN_congr (r : RE) (c c' : Nat) (h : agreeOn c c' r = true) : derivN 
     simp only [derivN, h]
   | cat a b iha ihb =>
     simp only [agreeOn, Bool.and_eq_true] at h
-    simp only [derivN, iha h.1, ihb h.2]
+    cases hn : nullable a with
+    | false => simp only [derivN, hn, iha h.1]; rfl
+    | true =>
+      have h2 := h.2
+      rw [hn] at h2
+      simp only [derivN, hn, iha h.1, ihb (by simpa using h2)]
   | alt a b iha ihb =>
     simp only [agreeOn, Bool.and_eq_true] at h
     simp only [derivN, iha h.1, ihb h.2]
@@ -51,12 +57,12 @@ theorem derivN_congr (r : RE) (c c' : Nat) (h : agreeOn c c' r = true) : derivN 
     simp only [agreeOn] at h
     simp only [derivN, iha h]
 
-/-- the byte class `cl` is inside or disjoint from every class bitmap occurring in the regex -/
+/-- the byte class `cl` is inside or disjoint from every class bitmap the derivative looks at -/
 def classOK (cl : Nat) : RE → Bool
   | emp => true
   | eps => true
   | cls bm => Nat.beq (cl &&& bm) 0 || Nat.beq (cl &&& bm) cl
-  | cat a b => classOK cl a && classOK cl b
+  | cat a b => classOK cl a && (!nullable a || classOK cl b)
   | alt a b => classOK cl a && classOK cl b
   | RE.and a b => classOK cl a && classOK cl b
   | RE.not a => classOK cl a
@@ -86,7 +92,14 @@ theorem agree_of_classOK (cl : Nat) (r : RE) (b c : Nat) (h : classOK cl r = tru
       rw [e1, e2]
   | cat a b iha ihb =>
     simp only [classOK, Bool.and_eq_true] at h
-    simp only [agreeOn, Bool.and_eq_true]; exact ⟨iha h.1, ihb h.2⟩
+    simp only [agreeOn, Bool.and_eq_true]
+    refine ⟨iha h.1, ?_⟩
+    cases hn : nullable a with
+    | false => rfl
+    | true =>
+      have h2 := h.2
+      rw [hn] at h2
+      simpa using ihb (by simpa using h2)
   | alt a b iha ihb =>
     simp only [classOK, Bool.and_eq_true] at h
     simp only [agreeOn, Bool.and_eq_true]; exact ⟨iha h.1, ihb h.2⟩
